@@ -111,3 +111,14 @@ Theorem C03_ligero_check_shape :
     (length idx <= length (lf_cols pf))%nat /\ (length idx <= length (lf_paths pf))%nat.
 Proof. exact @ligero_check_shape. Qed.
 Print Assumptions C03_ligero_check_shape.
+
+(* IPA check_combinations: whatever commitments are presented, when the verifier's combination step succeeds the flat
+   element list is read back without a shift - the i-th labelled commitment handed to the batch check is the one
+   computed for the i-th combination (a stray shifted part on a commitment without degree bound aborts instead) *)
+From PC Require Import Schemes.LC Schemes.Marlin Schemes.IPA Schemes.IPABatch Proofs.IPABatchFacts.
+Theorem C03_ipa_check_combinations_aligned :
+  forall (FO : FieldOps) cm lcs ev info flat ev',
+    ilc_verifier_all cm lcs ev = Ok (info, flat, ev') ->
+    exists lcm, construct_lcomms info flat = Ok lcm /\ Forall2 (own_lcomm cm) lcs lcm.
+Proof. exact @check_combinations_aligned. Qed.
+Print Assumptions C03_ipa_check_combinations_aligned.
